@@ -533,6 +533,114 @@ def spec_type_eq(ck, db):
     ck.bounds['Type::eq'] = 'scalar types and tuples of 0..2 scalar elements on each side'
 
 
+# =========================================================================== array literals: every member has the element type the checker announces
+
+ARRAY_SHAPES = ('S', 'E', 'A')      # a scalar literal of any kind; the empty array []; a one-element array [scalar of any kind]
+SHAPE_TEXT = {0: ('1', '[1]'), 1: ('true', '[true]'), 2: ('"a"', '["a"]')}
+
+
+def spec_array_literal_typing(ck, db, nmembers=3):
+    """`[m0, m1, ..]`: when the checker accepts the literal as Array(T), every member's own type equals T (in the checker's own
+    sense of type equality, where Any is a wildcard).  Otherwise indexing the literal hands out a value of a type the checker
+    never promised.  Members: scalar literals of any kind, [], and one-element arrays of a scalar of any kind -- so that
+    wildcard-typed members (Array(Any)) sit between, before and after concretely typed ones."""
+    import itertools
+    try:
+        type_of = db.method('Value', 'type_of', trait='Evaluatable')
+        real_type_of = db.method('Value', 'real_type_of')
+    except KeyError as e:
+        ck.add('C08/array-literal/anchor', 'undecided', 'anchor_missing: %s' % e)
+        return
+    eqs = [f for f in db.by_method.get('eq', []) if f.params and len(f.params) == 2 and re.match(r'^&(?:script::)?Type$', f.params[0][1].strip())]
+    if len(eqs) != 1:
+        ck.add('C08/array-literal/anchor', 'undecided', 'anchor_missing: Type::eq (%d candidates)' % len(eqs))
+        return
+    for f in (type_of, real_type_of, eqs[0]):
+        ck.target(f)
+    ck.plans.append(array_literal_replay_plan)
+    ex = ck.engine(db=db, loop_bound=nmembers + 3)
+    ex.benign_havoc = re.compile(r'Clone>::clone|Deref|format|Debug|Display|err_msg|context')
+    ex.iter_bound = nmembers + 1
+    vn, tn = ex.si.enums['Value'], ex.si.enums['Type']
+    label = 'C08/array-literal/every-member-has-the-element-type-the-checker-announces'
+    reached = 0
+    for n in range(2, nmembers + 1):
+        for shapes in itertools.product(ARRAY_SHAPES, repeat=n):
+            st = State()
+            kinds = {}
+            members = []
+            for k, sh in enumerate(shapes):
+                if sh == 'E':
+                    members.append(Agg('Value', {}, vn.index('Array'), {vn.index('Array'): {0: Ref(st.alloc(SeqV.from_items([], 'Value', 'vec')), ())}}, vn))
+                    continue
+                v, d, _i, _b, _s = sym_value(ex, st, 'm%d' % k)
+                kinds['m%d_kind' % k] = d
+                members.append(v if sh == 'S' else Agg('Value', {}, vn.index('Array'), {vn.index('Array'): {0: Ref(st.alloc(SeqV.from_items([v], 'Value', 'vec')), ())}}, vn))
+            arr = Agg('Value', {}, vn.index('Array'), {vn.index('Array'): {0: Ref(st.alloc(SeqV.from_items(members, 'Value', 'vec')), ())}}, vn)
+            ex.inputs = dict(kinds)
+            ctxarg = Ref(st.alloc(Opaque('ScriptContext', 'ctx')), ())
+            st.env['shapes'] = ''.join(shapes)
+            for s in ex.call_fn(st, type_of, [Ref(st.alloc(arr), ()), ctxarg]):
+                if s.status != 'returned':
+                    continue
+                ok, ty = _ok_payload(s.ret)
+                if _is_err_concrete(s.ret) or not isinstance(ty, Agg):
+                    continue
+                elem = ty.variants.get(tn.index('Array'), {}).get(0)
+                if isinstance(elem, Ref):
+                    elem = ex.deref(s, elem)
+                if not isinstance(elem, Agg):
+                    continue
+                reached += 1
+                for k, m in enumerate(members):
+                    s2 = s.fork()
+                    s2.frames = []
+                    s2.status = 'running'
+                    for o in ex.call_fn(s2, real_type_of, [Ref(s2.alloc(m), ()), ctxarg]):
+                        if o.status != 'returned':
+                            continue
+                        okm, mt = _ok_payload(o.ret)
+                        if _is_err_concrete(o.ret) or not isinstance(mt, Agg):
+                            continue
+                        o2 = o.fork()
+                        o2.frames = []
+                        o2.status = 'running'
+                        for e in ex.call_fn(o2, eqs[0], [Ref(o2.alloc(mt), ()), Ref(o2.alloc(elem), ())]):
+                            if e.status == 'returned' and isinstance(e.ret, Bool):
+                                e.env = dict(e.env, inputs=dict(e.env.get('inputs', {})))
+                                ex.inputs = dict(kinds, shapes=Bytes.from_py(''.join(shapes).encode(), 'str'), member=Int(BV(k, 64), 64, False))
+                                ex.prove(e, label, z3.Implies(z3.And(ok, okm), e.ret.t))
+    if not reached:
+        ck.add('C08/array-literal/reachability', 'vacuous', 'no array literal was accepted in the model')
+    for f in ex.findings:
+        if not hasattr(f, 'target'):
+            f.target = 'array literal typing'
+    ck.absorb(ex, 'Value::type_of (array literals)', None)
+    ck.bounds['array-literals'] = 'array literals of 2..%d members, each a scalar literal of any kind, [] or a one-element array of a scalar of any kind' % nmembers
+
+
+def array_literal_replay_plan(ob):
+    f = ob.finding
+    if f is None or (ob.target or '') != 'array literal typing' or not ob.label.startswith('C08/array-literal/'):
+        return None
+    i = f.inputs or {}
+    try:
+        shapes = bytes.fromhex((i.get('shapes') or {}).get('hex', '')).decode()
+    except Exception:
+        shapes = ''
+    k = i.get('member', 0) if isinstance(i.get('member', 0), int) else 0
+    if not shapes:
+        return None
+    texts = []
+    for j, sh in enumerate(shapes):
+        kind = i.get('m%d_kind' % j, 0)
+        kind = kind if isinstance(kind, int) and kind in SHAPE_TEXT else 0
+        texts.append('[]' if sh == 'E' else SHAPE_TEXT[kind][0 if sh == 'S' else 1])
+    src = '[%s][%d]' % (','.join(texts), k)
+    # the literal indexed at the offending member: the checker's type for it vs the type of what evaluation hands out
+    return 'milu_script', {'driver': 'check_eval', 'args': {'source': src}}, lambda o: o.get('typed') is True and o.get('value_type_matches') is False
+
+
 def type_eq_replay_plan(ob):
     f = ob.finding
     if f is None or not ob.label.startswith('C08/type-eq/'):
